@@ -264,6 +264,19 @@ def cases(draw):
             if pre.bool():
                 am["k"].insert(0, {"n": "describes", "c": "x"})
             hosts[0].setdefault("k", []).append(am)
+    # the three names the tables permit under a parent although no element of that name is known (C10's known closure
+    # pairs): under exactly that parent they are what every other unknown child is - an offending subtree
+    gaps = [("eml", "software"), ("eml", "protocol"), ("relatedProject", "studyAreaDescription")]
+    spots = [(x, c) for _, x in treegen.spec_nodes(sp) for (h, c) in gaps if x["n"] == h]
+    if not spots and pre.chance(8):
+        sp = {"n": "eml", "a": {"packageId": "p.1.1", "system": "s"}, "k": [treegen.tables().min_spec("dataset")]}
+        spots = [(sp, c) for (h, c) in gaps if h == "eml"]
+    if spots and pre.bool():
+        host_, c_ = pre.pick(spots)
+        new_ = {"n": c_}
+        if pre.bool():
+            new_["k"] = [{"n": "title", "c": "t"}]
+        host_.setdefault("k", []).insert(pre.int(0, len(host_.get("k", []))), new_)
     if pre.chance(3):
         # the class the exception-steered implementation mishandles: offender under a parent with a content/attr error
         hosts = [s for _, s in treegen.spec_nodes(sp) if s["n"] in R.node_mappings and s["n"] != "metadata"]
